@@ -163,6 +163,8 @@ class StrEval:
                     return (m, base, sep, mx)
                 if m in ("rstrip", "strip", "lstrip") and not args:
                     return (m, base)
+                if m in ("splitlines", "casefold", "lower", "upper", "title", "expandtabs", "removesuffix", "removeprefix", "encode", "decode"):
+                    return ("strop", m, base, tuple(args))  # another string operation: a term of its own, never the identity
                 if m in ("partition", "rpartition") and len(args) == 1:
                     return (m, base, args[0])
                 if m == "replace" and len(args) == 2:
